@@ -82,6 +82,8 @@ def run(ctx):
             st["hist"]["parse_" + k] += 1
     except Exception as e:
         ctx.notes.append("harness: fallback-binary-only (%s)" % str(e)[:200])
+        ctx.violation("correspondence-mismatch", "the real functions could not be reached through the harness (#[path] inclusion of /repo/src): %s" % str(e)[:300], input={}, concrete=False,
+                      correspondence="harness build / run")
     # ---- (2) the binary on argument vectors against a non-empty tree ----
     base = build_tree(ctx)
     argvs = list(vectors)
